@@ -325,6 +325,17 @@ func TestPropGrid(t *testing.T) {
 				if !emit(c) {
 					return
 				}
+				// the same write (and a clear) through proto.set_field once the message is frozen
+				fz := &Case{Kind: "p2." + f, Pos: "p2ext-frozen", Value: nv.name, Ops: []Op{
+					{Op: "new", M: "P2", V: pv(vDict(vStr("req"), vI(1)))},
+					{Op: "setf", F: f, V: pv(vI(1)), Star: true},
+					{Op: "freeze"},
+					{Op: "setf", F: f, V: pv(nv.v)},
+					{Op: "setf", F: "oi", V: pv(vI(3))},
+					{Op: "set", F: "oi", V: pv(vI(4))}}}
+				if !emit(fz) {
+					return
+				}
 			}
 		}
 	})
